@@ -2,9 +2,10 @@ package main
 
 import (
 	"fmt"
-	"os"
 	"go/ast"
 	"go/token"
+	"os"
+	"regexp"
 	"strconv"
 	"strings"
 )
@@ -260,6 +261,26 @@ func genTables(c *ctx) string {
 		terms = "[" + terms + "]"
 	}
 	fmt.Fprintf(&b, "def numberTerminators : List Nat := %s\n", terms)
+	fmt.Fprintf(&b, "/-- `writeMap`: in the JSON form a member name is written through `writeString` (escaped) -/\ndef jsonKeysEscaped : Bool := %s\n", jsonKeysEscaped(c))
 	b.WriteString("end Ggql.Gen\n")
 	return b.String()
+}
+
+// jsonKeysEscaped reads how writeMap writes a member name.
+func jsonKeysEscaped(c *ctx) string {
+	fd := c.funcs["writeMap"]
+	if fd == nil {
+		return unknown("writeMap", "value.go")
+	}
+	src := regexp.MustCompile(`(?m)//.*$`).ReplaceAllString(c.src(fd.Body), "")
+	src = regexp.MustCompile(`\s+`).ReplaceAllString(src, " ")
+	const raw = `if err == nil && !sdl { _, err = w.Write([]byte{'"'}) } if err == nil { _, err = w.Write([]byte(key)) } if err == nil && !sdl { _, err = w.Write([]byte{'"'}) }`
+	const esc = `if err == nil { if sdl { _, err = w.Write([]byte(key)) } else {`
+	switch {
+	case strings.Contains(src, raw) && !strings.Contains(src, "writeString(w, key"):
+		return "false"
+	case strings.Contains(src, esc) && strings.Contains(src, "err = writeString(w, key, true) } }") && strings.Count(src, "w.Write([]byte(key))") == 1:
+		return "true"
+	}
+	return unknown("writeMap key", c.pos(fd))
 }
